@@ -25,12 +25,12 @@ def main(pid, tier, replay_path=None):
     try:
         with vlib.Scratch('dial') as sc:
             binary = vlib.build_harness(sc, '.', instrumented_pool=True)
-            scs = [json.load(open(replay_path))['scenario']] if replay_path else gen(600 if tier == 'quick' else 15000, 60 if tier == 'quick' else 1500, seed)
+            scs = [json.load(open(replay_path))['scenario']] if replay_path else gen(600 if tier == 'quick' else 60000, 60 if tier == 'quick' else 5000, seed)
             ctl = [s for s in scs if not s['free']]
             free = [s for s in scs if s['free']]
             res, crashed = conn.run_scenarios(sc, binary, ctl, 'd', procs=12, test='TestVerifDialScenarios')
             if not replay_path:
-                extra = conn.stall_variants(ctl[:40 if tier == 'quick' else 800], res, per_scenario=40, rnd=random.Random(seed), skip_actors=())
+                extra = conn.stall_variants(ctl[:40 if tier == 'quick' else 2500], res, per_scenario=40, rnd=random.Random(seed), skip_actors=())
                 res2, cr2 = conn.run_scenarios(sc, binary, extra, 'e', procs=12, test='TestVerifDialScenarios')
                 ctl += extra
                 res.update(res2)
